@@ -500,7 +500,9 @@ func c17GenDecision(t *rapid.T) harness.Decision {
 	case 1:
 		d.Enh = [3]int{-1, -1, -1}
 	default:
-		d.Enh = [3]int{code / 100, rapid.IntRange(0, 9).Draw(t, "subj"), rapid.SampledFrom([]int{0, 1, 7, 10, 99, 255}).Draw(t, "detail")}
+		// RFC 3463: class "." subject "." detail, subject and detail 1*3DIGIT
+		d.Enh = [3]int{code / 100, rapid.SampledFrom([]int{0, 1, 7, 9, 10, 99, 100, 999, rapid.IntRange(0, 999).Draw(t, "subj_any")}).Draw(t, "subj"),
+			rapid.SampledFrom([]int{0, 1, 7, 10, 99, 100, 255, 999, rapid.IntRange(0, 999).Draw(t, "detail_any")}).Draw(t, "detail")}
 	}
 	return d
 }
